@@ -3,6 +3,7 @@ import AasVerif.Lemmas.Lit.Go
 import AasVerif.Lemmas.Lit.Py
 import AasVerif.Lemmas.Lit.Cpp
 import AasVerif.Lemmas.Lit.Ts
+import AasVerif.Lemmas.Lit.Java
 /-!
 # C19 — Emitted literals denote exactly the original values
 
@@ -249,5 +250,53 @@ theorem tst_roundtrip (s : Text) (hs : ∀ c ∈ s, c < 0x110000) :
 example : enc_ts false true [36, 123, 36, 96, 0xDC00] = .ok (Text.ofString "`\\${$\\`\\udc00`") := by decide
 example : dec_tst (Text.ofString "`\\${$\\`\\udc00`") = some [36, 123, 36, 96, 0xDC00] := by decide
 example : dec_tst (Text.ofString "`${`") = none := by decide
+
+/-! ## Java
+
+The reader is two-staged as in the JLS: the Unicode-escape pre-pass (§3.3, with the rule on the
+number of preceding backslashes) over the raw source, then the string literal (§3.10.5).
+Lone surrogates are written as `\udXXX`, which only the pre-pass understands. (javac 17 deviates
+from JLS §3.3 after a Unicode escape followed by backslashes: known finding C19-F2.) -/
+
+theorem java_roundtrip (s : Text) (hs : ∀ c ∈ s, c < 0x110000) :
+    ∃ lit, enc_java s = .ok lit ∧ dec_java lit = some (s.flatMap utf16cp) := by
+  refine ⟨[34] ++ s.flatMap escJava ++ [34], ?_, ?_⟩
+  · unfold enc_java stripped
+    rw [isStripped_quoted 34 _ (by decide)]; rfl
+  · have hst : storable ([34] ++ s.flatMap escJava ++ [34]) = true :=
+      storable_wrap _ _ _ (okSrc_list_small _ (by decide))
+        (okSrc_flatMap escJava _ java_okSrc s hs) (okSrc_list_small _ (by decide))
+    unfold dec_java
+    rw [if_pos hst]
+    have hpre : javaPre .norm ([34] ++ s.flatMap escJava ++ [34]) = some (34 :: (s.flatMap preVal ++ [34])) := by
+      have := java_pre_all s
+      simp only [List.cons_append, List.nil_append, javaPre]
+      simp [this, utf16cp]
+    rw [hpre]
+    have hr := run_of_runs (runs_flatMap stepJava preVal utf16cp [34] (· < 0x110000)
+      (fun c tail v hc h => java_char c tail v hc h) (Runs.done (by simp [stepJava])) s hs)
+    simpa using hr
+
+theorem java_needs_escaping_iff (s : Text) :
+    needs_java s = true ↔ enc_java s ≠ .ok ([34] ++ s ++ [34]) := by
+  have henc : enc_java s = .ok ([34] ++ s.flatMap escJava ++ [34]) := by
+    unfold enc_java stripped
+    rw [isStripped_quoted 34 _ (by decide)]; rfl
+  rw [henc]
+  have := flatMap_eq_self_iff escJava needsCharJava java_needs_false java_needs_true s
+  unfold needs_java
+  constructor
+  · intro hn heq
+    simp only [Res.ok.injEq, List.cons_append, List.nil_append, List.cons.injEq, true_and,
+      List.append_cancel_right_eq] at heq
+    rw [this.1 heq] at hn; exact absurd hn (by decide)
+  · intro hne
+    cases hb : s.any needsCharJava with
+    | true => rfl
+    | false => exact absurd (by rw [this.2 hb]) hne
+
+example : enc_java [0xD83D, 92, 117, 0x1F600] = .ok (Text.ofString "\"\\ud83d\\\\u" ++ [0x1F600, 34]) := by decide
+/-- by the JLS the second backslash of `\\` is not eligible to start a Unicode escape -/
+example : dec_java (Text.ofString "\"\\ud83d\\\\u" ++ [0x1F600, 34]) = some [0xD83D, 92, 117, 0xD83D, 0xDE00] := by decide
 
 end AasVerif.Props.C19
